@@ -15,18 +15,25 @@ def U(ns, ranks, **kw):
     d = {'NS': ns, 'SYM_RANKS': '{%s}' % ','.join(str(r) for r in ranks)}
     d.update(kw); return d
 
-CHECKS = {
- 'C03': {
-  'level': 'model_checking',
-  'explanation': 'RemoveUnreachableStates, RemoveUselessStates and IsLangEmpty executed symbolically on every automaton whose rules are drawn from the rule universe of the configuration (presence bit per rule, finality bit per state); results decoded by iterating the returned automaton and compared with naive fixpoint oracles (productive / reachable / useful masks, macro-state language inclusion in both directions).',
-  'bounds': {'quick': 'automata over <=3 states with symbols of rank <=2; universes: 2 states x {a/0,f/1}, 2 x {a/0,f/1,g/2}, 3 x {a/0,f/1}; all subsets of rules and final states (8..16 free bits per query)',
-             'thorough': 'as quick plus 2 x {a/0,b/0,f/1,g/2} and 3-state universes with a binary symbol restricted to sub-universes'},
-  'outside': 'more than 3 states, rank > 2, state numbers >= NS, automata sharing storage with other automata (see C11)',
-  'harnesses': [
-    {'name': 'trim', 'src': 'harness/C03/trim.cc', 'tus': TREE_CORE + ['explicit_tree_useless', 'explicit_tree_unreach'],
-     'configs': {'quick': [U(2, [0, 1], OP=0), U(2, [0, 1], OP=1), U(2, [0, 1, 2], OP=0), U(2, [0, 1, 2], OP=1), U(3, [0, 1], OP=0), U(3, [0, 1], OP=1)],
-                 'thorough': [U(2, [0, 1], OP=0), U(2, [0, 1], OP=1), U(2, [0, 1, 2], OP=0), U(2, [0, 1, 2], OP=1), U(3, [0, 1], OP=0), U(3, [0, 1], OP=1), U(2, [0, 0, 1, 2], OP=0), U(2, [0, 0, 1, 2], OP=1)]},
-     'selftest_config': U(2, [0, 1], OP=0), 'selftests': ['VS_SELFTEST_1']},
-  ],
- },
-}
+TREE_INCL = TREE_CORE + ['explicit_tree_useless', 'explicit_tree_unreach', 'explicit_tree_incl', 'explicit_tree_incl_up', 'explicit_tree_incl_down', 'explicit_tree_union', 'explicit_tree_sim', 'explicit_lts_sim', 'aut_base', 'incl_param', 'util', 'symbolic', 'convert']
+
+def AB(na, nb, ranks, **kw):
+    d = {'NA': na, 'NB': nb, 'SYM_RANKS': '{%s}' % ','.join(str(r) for r in ranks)}
+    d.update(kw); return d
+
+def c01_configs(shapes, heavy=False):
+    out = []
+    for (na, nb, ranks) in shapes:
+        for sel in range(8):
+            big = sel == 1 and 2 in ranks      # upward + simulation with a binary symbol: ~100 s, > 10 GB
+            if big and not heavy: continue
+            out.append(AB(na, nb, ranks, SEL=sel, **({'_heavy': 1, '_mem_gb': 40, '_time': 1500} if big else {})))
+    return out
+
+
+import os, glob, importlib.util
+CHECKS = {}
+for _f in sorted(glob.glob(os.path.join(os.path.dirname(os.path.abspath(__file__)), 'checks.d', '*.py'))):
+    _spec = importlib.util.spec_from_file_location('checks_' + os.path.basename(_f)[:-3], _f)
+    _m = importlib.util.module_from_spec(_spec); _spec.loader.exec_module(_m)
+    CHECKS.update(_m.CHECKS)
